@@ -138,6 +138,11 @@ fn lies_for(p: &Program, other_warp: Option<(WarpId, NodeId)>) -> Vec<Lie> {
             Mop::OpenPortalNode { node, .. } => out.push(Lie::DropAttWrite(na(node), "open-portal")),
             Mop::OpenPortalEdge { edge, .. } => out.push(Lie::DropAttWrite(ea(edge), "open-portal")),
             Mop::Panic | Mop::ForeignSetNodeAtt { .. } | Mop::ClaimPort { .. } => {}
+            Mop::RecreateEdge { edge, old_from, new_from, .. } => {
+                out.push(Lie::DropEdgeWrite(*edge, "recreate-edge"));
+                out.push(Lie::DropNodeWrite(*old_from, "recreate-edge/old-source"));
+                out.push(Lie::DropNodeWrite(*new_from, "recreate-edge/new-source"));
+            }
         }
     }
     if let Some((ow, on)) = other_warp {
